@@ -10,14 +10,21 @@ ver = subprocess.run(['/verif/tools/verifyseed.sh', src] + flags, capture_output
 m = re.search(r'RESULT \S+: suite_with_patch_passes=(\w+) demo_with_patch=(\w+) demo_without_patch=(\w+) tests=(.*)', ver)
 if not m or m.group(1) != 'yes' or m.group(2) != 'FAIL' or m.group(3) != 'PASS':
     print('NOT CONFIRMED:', ver[-1500:]); sys.exit(1)
-# run the checks on /repo with the patch
-assert subprocess.run(['git', '-C', '/repo', 'diff', '--quiet']).returncode == 0, '/repo dirty'
-subprocess.run(['git', '-C', '/repo', 'apply', os.path.join(src, 'patch.diff')], check=True)
+# run the checks on /repo + patch (materialised as an overlay in a scratch dir; /repo is not touched)
+import tempfile
+d = tempfile.mkdtemp(prefix='/tmp/ovseed.')
 try:
-    out = subprocess.run(['/verif/bin/gldapcheck', '-prop', 'all', '-tier', 'quick'], capture_output=True, text=True, cwd='/verif').stdout
+    os.makedirs(d + '/full'); os.makedirs(d + '/ov')
+    subprocess.run('git -C /repo archive HEAD | tar -x -C %s/full' % d, shell=True, check=True)
+    patch = os.path.abspath(os.path.join(src, 'patch.diff'))
+    subprocess.run('patch -s -p1 < %s' % patch, shell=True, check=True, cwd=d + '/full')
+    for f in re.findall(r'^\+\+\+ b/(\S+)', open(patch).read(), re.M):
+        os.makedirs(os.path.dirname(os.path.join(d, 'ov', f)), exist_ok=True)
+        shutil.copy(os.path.join(d, 'full', f), os.path.join(d, 'ov', f))
+    out = subprocess.run(['/verif/bin/gldapcheck', '-prop', 'all', '-tier', 'quick', '-noevidence', '-overlay', d + '/ov'], capture_output=True, text=True, cwd='/verif').stdout
 finally:
-    subprocess.run(['git', '-C', '/repo', 'checkout', '--', '.'], check=True)
-viol = sorted(set(re.findall(r'VIOLATION property=(C\d+)', out)))
+    shutil.rmtree(d, ignore_errors=True)
+viol = sorted(set(re.findall(r'^(C\d+): .* [1-9]\d* violations', out, re.M)))
 rules = sorted(set(re.findall(r'^\s+(?:violated|undecided) \S+ \[([^\]]+)\]', out, re.M)))
 lines = [l.strip()[:400] for l in out.splitlines() if l.strip().startswith(('violated', 'undecided'))]
 os.makedirs(dst, exist_ok=True)
@@ -35,7 +42,7 @@ meta = {
     'confirmed': {'how': 'tools/verifyseed.sh in a scratch worktree of /repo HEAD (removed afterwards): existing suite passes with the patch; demonstration fails with the patch and passes without it' + ((' (go test ' + ' '.join(flags) + ')') if flags else ''),
                   'repo_head': subprocess.run(['git', '-C', '/repo', 'log', '--format=%h', '-1'], capture_output=True, text=True).stdout.strip(),
                   'suite_with_patch': 'pass', 'demo_with_patch': 'FAIL', 'demo_without_patch': 'PASS'},
-    'checks_run': 'bin/gldapcheck -prop all -tier quick with the patch applied to /repo (git apply; reverted with git checkout -- .)',
+    'checks_run': 'bin/gldapcheck -prop all -tier quick on /repo HEAD + patch (patched files handed to the checker as an overlay; same result as git -C /repo apply + run + git checkout -- .)',
     'detected_by_properties': viol, 'detected_by_rules': rules, 'detected': prop in viol, 'reports': lines[:8],
 }
 json.dump(meta, open(os.path.join(dst, 'meta.json'), 'w'), indent=1)
